@@ -125,7 +125,7 @@ func checkC12(c *Case, st *Stats) string {
 		if acc.again != nil && len(acc.got) > 0 {
 			// the accessors stay what they are when the same parsed function is called again
 			logged, errs := len(acc.rec.Calls), acc.rec.Errs
-			_, _ = acc.again(otherLeaves(c.Document())) // same shape, every scalar replaced
+			_, _ = acc.again(otherLeaves(c.Document()))                // same shape, every scalar replaced
 			acc.rec.Calls, acc.rec.Errs = acc.rec.Calls[:logged], errs // the second call is not part of the comparison below
 			st.Eval(1)
 			for i := range acc.got {
